@@ -47,7 +47,40 @@ Definition events_only_unlocked (cfg : config) (cur : sobs) : bool :=
                                             if N.eqb k K_Event then mem_N b (so_unlocked cur) else true end)
                                (eo_ctxs e)) (so_execs cur).
 
-Definition step_ok (cfg : config) (a : action) (prev cur : sobs) : bool :=
-  negb (so_bad cur) && unlock_legal cfg a prev cur && events_only_unlocked cfg cur.
+(* (3) ... and once that execution has ended successfully the monitors it covers ARE unlocked:
+   from then on the binding's changes reach the hook (found violated on the unchanged tree
+   for a Synchronization retried after being combined with a group mate's Event: repaired,
+   b4b7f41) *)
+Definition unlock_complete (stopped : bool) (a : action) (prev cur : sobs) : bool :=
+  match a with
+  | Finish q ok =>
+      if N.eqb q 0 && main_running prev && negb stopped then
+        match main_head prev with
+        | Some t => if ok || t_allow t then forallb (fun b => mem_N b (so_unlocked cur)) (t_mids t) else true
+        | None => true
+        end
+      else true
+  | FinishWait q =>
+      if N.eqb q 0 && main_running prev && negb stopped then
+        match main_head prev with
+        | Some t => if t_allow t then forallb (fun b => mem_N b (so_unlocked cur)) (t_mids t) else true
+        | None => true
+        end
+      else true
+  | _ => true
+  end.
 
-Definition P_op (c : Op_Corr.case) : bool := all_steps (step_ok (c_cfg c)) empty_obs (c_acts c) (c_obs c).
+Definition step_ok (cfg : config) (stopped : bool) (a : action) (prev cur : sobs) : bool :=
+  negb (so_bad cur) && unlock_legal cfg a prev cur && events_only_unlocked cfg cur
+  && unlock_complete stopped a prev cur.
+
+Fixpoint steps_ok (cfg : config) (stopped : bool) (prev : sobs) (acts : list action) (obs : list sobs) : bool :=
+  match acts, obs with
+  | [], [] => true
+  | a :: acts', cur :: obs' =>
+      step_ok cfg stopped a prev cur
+      && steps_ok cfg (stopped || match a with Stop => true | _ => false end) cur acts' obs'
+  | _, _ => false
+  end.
+
+Definition P_op (c : Op_Corr.case) : bool := steps_ok (c_cfg c) false empty_obs (c_acts c) (c_obs c).
